@@ -36,13 +36,19 @@ def setup():
   global F
   F = f
 
+  def helper12(p=0, q=0):
+    return (p, q)
+  gin.external_configurable(helper12, name='helper12', module='c12')
+  global HELPER
+  HELPER = helper12
+
 
 OPS = ['finalize', 'unlock_enter', 'unlock_exit_ok', 'unlock_exit_raise', 'bind_x', 'parse_y', 'register', 'clear',
        'register_class_with_method', 'hook_y7', 'hook_y8_other_spelling', 'hook_z', 'hook_invalid', 'hook_raises', 'hook_none', 'hook_empty',
        'parse_unbound_macro', 'parse_placeholder', 'parse_required', 'bind_tuple_x', 'parse_block_z',
        'define_macro', 'parse_macro_y_evaluated', 'parse_macro_z_unevaluated', 'parse_macro_y_short_ref',
        'finalize_in_scope', 'parse_macro_z_dictkey', 'bind_x_in_other_thread', 'parse_scoped_y',
-       'parse_y_one', 'hook_y_true', 'unlock_create', 'unlock_enter_pending', 'parse_placeholder_in_macro']
+       'parse_y_one', 'hook_y_true', 'unlock_create', 'unlock_enter_pending', 'parse_placeholder_in_macro', 'reregister_existing']
 UNIVERSE = ['c12.f.x', 'c12.f.y', 'c12.f.z']
 
 
@@ -145,7 +151,7 @@ class World:
 
   def expected(self):
     obs = {'locked': self.locked,
-           'registry': sorted(['c12.f'] + (['c12.KM', 'c12.KM.kmeth'] if self.km_registered else ['c12.kmeth']))}
+           'registry': sorted(['c12.f', 'c12.helper12'] + (['c12.KM', 'c12.KM.kmeth'] if self.km_registered else ['c12.kmeth']))}
     for k in UNIVERSE:
       obs[k] = self.config.get(k)
     return obs
@@ -344,6 +350,12 @@ class World:
           return None
         late.__name__ = name
         gin.external_configurable(late, name=name, module='c12')
+      elif op == 'reregister_existing':
+        # the very same function under the name it already has (now with a list): a registration like any other
+        mutator = True
+        if self.locked:
+          exp_out = 'RuntimeError'
+        gin.external_configurable(HELPER, name='helper12', module='c12', denylist=['q'])
       elif op == 'register_class_with_method':
         mutator = True
         if self.locked:
